@@ -1098,6 +1098,13 @@ class Tr:
             if buf is None or buf.kind != "bytes":
                 raise Unsupported("buffer is not bytes at the end of the iteration")
             return f"pure (some ({self.bytes_term(em)}, {self.bytes_term(buf)}))"
+        if out[0] == "attr_value":
+            # a parser that leaves ONE attribute set: its value at the end
+            v = st.get("self." + out[1])
+            if v is None:
+                raise Unsupported(f"attribute {out[1]} is never assigned")
+            t = self.as_opt(v, out[2][4:]) if out[2].startswith("opt:") else to_int_term(v)
+            return t if t.startswith("pure ") or not self.effectful else "pure " + paren(t)
         if out[0] == "dispatch":
             # `return some_class(payload)`: which class (its tag) and the bytes handed to its constructor
             if not (isinstance(retexpr, ast.Call) and len(retexpr.args) == 1 and not retexpr.keywords):
@@ -1406,6 +1413,9 @@ SPECS = [
                     "Response.validate": ("responseValidate", ["bytes"], "unit", True),
                     "cls.validate": ("responseValidate", ["bytes"], "unit", True)},
          model="Model.constructDispatch frame"),
+    dict(name="parseHumidity", file=CMD, func="HumidityResponse._parse", inputs=[("payload", "bytes")],
+         init_none=[("humidity", "opt:int")], out=("attr_value", "humidity", "opt:int"), effectful=True, rtype="R (Option Int)",
+         model="(Model.parseHumidity payload).map (fun o => o.map (fun n => (n : Int)))"),
     dict(name="constructOuter", file=CMD, func="Response.construct", inputs=[("frame", "bytes")],
          out=("value", "opaque"), rtype="R (Int × Bytes)", effectful=True, native_bytes=True,
          externals={"cls._construct": ("constructDispatch", ["bytes"], "opaque", True),
